@@ -662,6 +662,9 @@ class PureScheduler:                                    # pylint: disable=r0902
             # the outcome of the previous run until that scheduler restarts
             if isinstance(job, PureScheduler):
                 job._reset_tasks()
+                # and so would the verdict of that scheduler
+                job._failed_critical = False
+                job._failed_timeout = False
 
     def _backlinks(self):
         """
